@@ -12,6 +12,7 @@ Section Restore.
   Variable lnext : nat -> heap -> L -> option (heap * L * res).
   Variable lclose : heap -> L -> heap.
   Variable prog : P -> code X E P * E.
+  Variable gho : E -> nat.
 
   (* THE RESTORING CONTRACT of a leaf iterator.  LInv h0 l hc: "l was created under the heap h0
      and, with the heap now being hc, is consistent with it". *)
@@ -27,11 +28,11 @@ Section Restore.
   Notation code := (code X E P).
   Notation iclose := (iclose lclose).
   Notation unwind := (unwind lclose).
-  Notation exec := (exec mkleaf lnext lclose prog).
-  Notation cont := (cont mkleaf lnext lclose prog).
-  Notation loop := (loop mkleaf lnext lclose prog).
-  Notation inext := (inext mkleaf lnext lclose prog).
-  Notation nexts := (nexts mkleaf lnext lclose prog).
+  Notation exec := (exec mkleaf lnext lclose prog gho).
+  Notation cont := (cont mkleaf lnext lclose prog gho).
+  Notation loop := (loop mkleaf lnext lclose prog gho).
+  Notation inext := (inext mkleaf lnext lclose prog gho).
+  Notation nexts := (nexts mkleaf lnext lclose prog gho).
 
   (* the same notion for every iterator and for a frame's stack of open loops: each open
      iterator was created under the heap at which the enclosing one is suspended *)
@@ -126,7 +127,7 @@ Section Restore.
       - eapply IHc; eauto.
       - inversion H; subst. split; [constructor; exact K|split; [exact I|intros N; congruence]].
       - eapply IHe; [|exact H]. constructor. exact K.
-      - eapply IHl; [exact K| |exact H]. unfold mkiter. destruct (ex e h); constructor. apply L_new.
+      - eapply IHl; [exact K| |exact H]. unfold mkiter. destruct (ex (knxt gho k e) e h); constructor. apply L_new.
       - destruct (pop_loop k) as [[it k']|] eqn:Pk.
         + destruct (pop_loop_inv K Pk) as [h1 [K1 I1]].
           rewrite (iclose_restores I1) in H. eapply IHc; eauto.
@@ -307,37 +308,39 @@ Qed.
 Section UnifyMachine.
   Variable E P : Type.
   Variable prog : P -> code (term * term) E P * E.
-  Notation unexts := (nexts umkleaf ulnext ulclose prog).
-  Notation uinext := (inext umkleaf ulnext ulclose prog).
+  Variable gho : E -> nat.
+  Notation unexts := (nexts umkleaf ulnext ulclose prog gho).
+  Notation uinext := (inext umkleaf ulnext ulclose prog gho).
   Notation uiclose := (iclose (L:=gen) (X:=term*term) (E:=E) (P:=P) ulclose).
 
   Theorem query_restores_unify n d k h c e hf itf ys r :
     unexts n d k h (IFresh c e) = Some (hf, itf, ys, r) ->
     uiclose hf itf = h /\ (r <> RYield -> d <> 0 -> hf = h)
     /\ Forall (fun y => exists nw, y = nw ++ h) ys.
-  Proof. apply (@query_restores gen _ E P umkleaf ulnext ulclose prog inv U_new U_next U_close U_ext). Qed.
+  Proof. apply (@query_restores gen _ E P umkleaf ulnext ulclose prog gho inv U_new U_next U_close U_ext). Qed.
 
   Theorem rerun_same_unify n d k h c e hf itf ys r :
     d <> 0 -> r <> RYield ->
     unexts n d k h (IFresh c e) = Some (hf, itf, ys, r) ->
     unexts n d k hf (IFresh c e) = Some (hf, itf, ys, r).
-  Proof. apply (@rerun_same gen _ E P umkleaf ulnext ulclose prog inv U_new U_next U_close U_ext). Qed.
+  Proof. apply (@rerun_same gen _ E P umkleaf ulnext ulclose prog gho inv U_new U_next U_close U_ext). Qed.
 End UnifyMachine.
 
 Section UnifyMachine2.
   Variable E P : Type.
   Variable prog : P -> code (term * term) E P * E.
-  Notation uinext := (inext umkleaf ulnext ulclose prog).
+  Variable gho : E -> nat.
+  Notation uinext := (inext umkleaf ulnext ulclose prog gho).
   Notation uiclose := (iclose (L:=gen) (X:=term*term) (E:=E) (P:=P) ulclose).
   Notation UInv := (@Inv gen (term*term) E P inv).
 
   Theorem frame_next_restores_unify n d h0 it h h' it' r :
     UInv h0 it h -> uinext n d h it = Some (h', it', r) ->
     UInv h0 it' h' /\ (r = RStop -> h' = h0) /\ uiclose h' it' = h0.
-  Proof. apply (@frame_next_restores gen _ E P umkleaf ulnext ulclose prog inv U_new U_next U_close). Qed.
+  Proof. apply (@frame_next_restores gen _ E P umkleaf ulnext ulclose prog gho inv U_new U_next U_close). Qed.
 
   Theorem throw_restores_unify n d h0 it h h' it' r :
     UInv h0 it h -> is_frame it -> d <> 0 ->
     uinext n d h it = Some (h', it', r) -> r <> RYield -> h' = h0 /\ it' = IDone.
-  Proof. apply (@throw_restores gen _ E P umkleaf ulnext ulclose prog inv U_new U_next U_close). Qed.
+  Proof. apply (@throw_restores gen _ E P umkleaf ulnext ulclose prog gho inv U_new U_next U_close). Qed.
 End UnifyMachine2.
